@@ -233,6 +233,47 @@ def check(idx: Index, rep: Report, tier: str) -> str:
     if n_canon == 0:
         raise AnalysisError("no canonicalising attribute constructor found (IntegerAttr.__init__ expected)")
 
+    # ---- R7: a payload is never ordered by the iteration order of a set
+    r7 = rep.rule("C08.R7", "the payload of a Data attribute is not a sequence obtained by iterating a set (tuple(set(x)), tuple(<set-typed local>)): its order depends on hashing and insertion history, so the same flags given in another order build unequal attributes", floor=1)
+
+    def _set_ordered(fn: ast.AST) -> list[ast.Call]:
+        """`tuple(E)` / `list(E)` where E is `set(...)`, a set literal/comprehension, or a local bound to one, in __init__ / parse_parameter"""
+        set_locals: set[str] = set()
+        for st in ast.walk(fn):
+            tgt = val = None
+            if isinstance(st, ast.Assign) and len(st.targets) == 1 and isinstance(st.targets[0], ast.Name):
+                tgt, val = st.targets[0].id, st.value
+            elif isinstance(st, ast.AnnAssign) and isinstance(st.target, ast.Name) and st.value is not None:
+                tgt, val = st.target.id, st.value
+                if re.match(r"set\[|AbstractSet\[|frozenset\[", unparse(st.annotation)):
+                    set_locals.add(tgt)
+            if tgt and val is not None and (isinstance(val, (ast.Set, ast.SetComp)) or (isinstance(val, ast.Call) and unparse(val.func) in ("set", "frozenset")) or (isinstance(val, ast.Call) and call_attr(val) == "try_parse")):
+                set_locals.add(tgt)
+        out = []
+        for c in ast.walk(fn):
+            if isinstance(c, ast.Call) and unparse(c.func) in ("tuple", "list") and len(c.args) == 1:
+                a = c.args[0]
+                if isinstance(a, (ast.Set, ast.SetComp)) or (isinstance(a, ast.Call) and unparse(a.func) in ("set", "frozenset")) or (isinstance(a, ast.Name) and a.id in set_locals):
+                    out.append(c)
+        return out
+
+    POS = "class A(Data[tuple[int, ...]]):\n    def __init__(self, flags):\n        super().__init__(tuple(set(flags)))\n"
+    if len(_set_ordered(ast.parse(POS))) != 1:
+        raise AnalysisError("set-ordered payload detector self-check failed")
+    r7.ok("positive-example", "detector matches the built-in positive example")
+    for c in subs:
+        if not idx.is_subclass(c, "xdsl.ir.core.Data"):
+            continue
+        for mname in ("__init__", "parse_parameter"):
+            m = c.method(mname)
+            if m is None:
+                continue
+            hits = _set_ordered(m.node)
+            for h in hits:
+                r7.fail(f"{c.fq}.{mname}", Finding("C08.R7", m.fq, f"set-ordered-payload:{unparse(h)[:40]}", f"`{unparse(h)}` fixes the order of the stored tuple by iterating a set: attributes built from the same flags in a different order (or parsed from differently ordered text) have different payloads and compare unequal", f"{m.module.relpath}:{h.lineno}"))
+            if not hits:
+                r7.ok(f"{c.fq}.{mname}", None)
+
     return (
         "Class-hierarchy sweep over every Attribute subclass of the repository (all @irdl_attr_definition classes must "
         "resolve): eq/hash override pairing and key agreement, payload type immutability of Data[T], bit-pattern keys for "
